@@ -93,6 +93,8 @@ def cases(tier):
             for lo in range(0, np_, blk):
                 for dt in ("float", "int"):
                     yield ("cvt", cmd, dt, lo, min(np_, lo + blk), tier)
+    for cmd in SIG.FUZZY_PRODUCERS:
+        yield ("reuse", cmd, tier)
 
 
 def _check_range(cmd, res, viols, tag):
@@ -175,6 +177,54 @@ def _cvt(case):
     return {"evals": evals, "nontrivial": nontriv, "judged": judged, "viols": viols, "outcomes": outcomes, "sample": sample}
 
 
+def _reuse(case):
+    """a fuzzy result must stay within [-1, +1] for as long as it exists: produce it, then let EVERY command that accepts fuzzy input
+    consume it (alone and together with a second fuzzy result), re-checking the range after each consumer"""
+    _, cmd, tier = case
+    viols, outcomes = [], {}
+    evals = judged = 0
+    consumers = [c for c in SIG.DATA_COMMANDS if SIG.input_fuzz(c) in ("fz", "*")]
+    if SIG.input_fuzz(cmd) == "fz":
+        n = 1 if cmd == "FuzzyNot" else 2
+        srcs = [[D.mk_array([-1.0, -0.25, 0.5, 1.0, 0.0, None]) for _ in range(n)], [D.mk_array([1.0, 0.75, -1.0, 0.0, None, -0.5]) for _ in range(n)]]
+    else:
+        srcs = [[D.mk_array([-2.0, 0.0, 0.25, 1.0, 5.0, None])], [D.mk_array([1.0, 5.0, -1.0, 0.0, 2.0, 3.0])], [D.mk_array([0, 2, 5, -1, 1, 3], dtype="int")]]
+    for src in srcs:
+        for params in D.presets_small(cmd, len(src)):
+            r = D.execute(cmd, src, params)
+            evals += 1
+            if r[0] != "ok" or not isinstance(r[1], numpy.ndarray):
+                continue
+            F = r[1]
+            before = numpy.ma.MaskedArray(F).copy()
+            other = D.mk_array([0.5, -0.5, 1.0, -1.0, 0.25, 0.0])
+            for cons in consumers:
+                for n2 in D.arities(cons, 2):
+                    for cparams in D.presets_small(cons, n2):
+                        ins = [F] if n2 == 1 else [F, other]
+                        D.execute(cons, ins, cparams, fuzzy_inputs=True)
+                        evals += 1
+                        judged += 1
+                        tag = {"producer": cmd, "producer_params": params, "consumer": cons, "consumer_params": cparams}
+                        ok = _check_range(cmd, ("ok", F), viols, dict(tag, params=params))
+                        if ok and not (numpy.ma.getmaskarray(F) == numpy.ma.getmaskarray(before)).all():
+                            ok = True  # missing cells are C03/C09's business
+                        if not ok:
+                            viols[-1]["key"] += ":while-consumed-by:" + cons
+                            F = None
+                            break
+                    if F is None:
+                        break
+                if F is None:
+                    break
+            k = "reuse:%s:%s" % (cmd, "in-range" if F is not None else "OUT")
+            outcomes[k] = outcomes.get(k, 0) + 1
+    return {"evals": max(evals, 1), "nontrivial": judged, "judged": judged, "viols": viols[:20], "outcomes": outcomes,
+            "sample": {"producer": cmd, "consumers": len(consumers)}}
+
+
 def run(case):
     case = tuple(case)
+    if case[0] == "reuse":
+        return _reuse(case)
     return _op(case) if case[0] == "op" else _cvt(case)
